@@ -10,6 +10,7 @@ for g in tools/gen*/main.go; do
   [ -f "$g" ] || continue
   d=$(dirname "$g"); (cd "$d" && go build -o "../../bin/$(basename "$d")" .)
 done
+python3 -c "import sys; sys.path.insert(0,'lib'); import verif; verif.write_coqproject()"
 cd coq
 coq_makefile -f _CoqProject -o Makefile.coq
 timeout 3000 make -f Makefile.coq -j16
